@@ -51,7 +51,7 @@ func genC03(r *Rng) *Plan {
 	p := &Plan{Cfg: cfg, Users: stdUsers, Gen: "spoof"}
 	host := cfg.Routes[0].From
 	p.Steps = append(p.Steps, Step{Op: "login", B: "b1", User: "alice@example.com", Host: host, Target: "/"})
-	n := r.Range(3, 15)
+	n := r.Steps(3, 15)
 	for i := 0; i < n; i++ {
 		if groupsOn && r.Chance(1, 3) {
 			// the directory changes while the user stays admitted: the asserted groups must follow the re-checked session
@@ -216,7 +216,7 @@ func genC12(r *Rng) *Plan {
 				Twin: &Step{Op: "get", B: "b2", Host: host, Method: r.Pick("POST", "PUT"), Target: "/open/upload-b", Body: strings.Repeat("B", lb)}})
 		}
 	}
-	n := r.Range(5, 20)
+	n := r.Steps(5, 20)
 	tamper := r.Chance(1, 2)
 	for i := 0; i < n; i++ {
 		st := Step{Op: "get", B: "b1", Host: host, Method: r.Pick("GET", "GET", "POST", "PUT", "DELETE", "PATCH", "OPTIONS", "HEAD")}
@@ -346,7 +346,7 @@ func genC13(r *Rng) *Plan {
 		p.Steps = append(p.Steps, Step{Op: "get", B: "t1", Host: fh, Target: "/", Dt: r.PickDur(cfg.ValidTTL+3*time.Second, cfg.TokenTTL+3*time.Second),
 			Twin: &Step{Op: "get", B: "t1", Host: sh, Target: "/"}})
 	}
-	n := r.Range(6, 20)
+	n := r.Steps(6, 20)
 	for i := 0; i < n; i++ {
 		h := hosts[r.Intn(len(hosts))]
 		b := r.Pick("b1", "b2")
@@ -389,7 +389,7 @@ func genC18(r *Rng) *Plan {
 	p := &Plan{Cfg: cfg, Users: stdUsers, Gen: "hardening"}
 	host := cfg.Routes[0].From
 	p.Steps = append(p.Steps, Step{Op: "login", B: "b1", User: "alice@example.com", Host: host, Target: "/"})
-	n := r.Range(5, 18)
+	n := r.Steps(5, 18)
 	for i := 0; i < n; i++ {
 		if r.Chance(1, 2) {
 			beh := &UpstreamBehaviour{}
@@ -470,7 +470,7 @@ func genC20(r *Rng) *Plan {
 		hs.Tag, hs.Hostile = fmt.Sprintf("hostile:%d", k), hostile
 		p.Steps = append(p.Steps, tw, hs)
 	}
-	n := r.Range(3, 10)
+	n := r.Steps(3, 10)
 	for i := 0; i < n; i++ {
 		h := hostileStrings[r.Intn(len(hostileStrings))]
 		if r.Chance(1, 3) {
